@@ -13,11 +13,34 @@ class Policy(object):
     """Per-kind probability of leaving the boring option."""
 
     def __init__(self, p_sched=0.0, p_event=0.0, p_io=0.0, p_short=0.0,
-                 p_seg=0.0, name='custom', burst=0):
+                 p_seg=0.0, name='custom', burst=0, pct_depth=0,
+                 pct_len=2000):
         self.p = {'sched': p_sched, 'event': p_event, 'io': p_io,
                   'short': p_short, 'seg': p_seg}
         self.name = name
         self.burst = burst
+        # PCT-style scheduling (Burckhardt et al.): random thread priorities,
+        # always run the highest-priority runnable thread, and at d-1 random
+        # change points demote the running thread below everybody else
+        self.pct_depth = pct_depth
+        self.pct_len = pct_len
+        self.prio = {}
+        self.change_points = None
+        self.low = 0
+
+    def pct_pick(self, cands, pos, rng):
+        if self.change_points is None:
+            self.change_points = set(rng.randrange(self.pct_len)
+                                     for _ in range(self.pct_depth - 1))
+        for t in cands:
+            if t not in self.prio:
+                self.prio[t] = rng.random() + 1.0
+        best = max(range(len(cands)), key=lambda i: self.prio[cands[i]])
+        if pos in self.change_points:
+            self.low -= 1
+            self.prio[cands[best]] = self.low
+            best = max(range(len(cands)), key=lambda i: self.prio[cands[i]])
+        return best
 
     def describe(self):
         d = dict(self.p)
@@ -35,8 +58,9 @@ class Tape(object):
         self.used = []          # sparse [(pos, value)] of non-zero choices
         self.counts = {}        # kind -> non-zero choices taken
 
-    def choose(self, n, kind):
-        """Return an int in [0, n).  n <= 1 is not a choice and not recorded."""
+    def choose(self, n, kind, cands=None):
+        """Return an int in [0, n).  n <= 1 is not a choice and not recorded.
+        cands (thread ids, for kind 'sched') lets a priority policy decide."""
         if n <= 1:
             return 0
         pos = self.pos
@@ -45,6 +69,8 @@ class Tape(object):
             v = self.replay.get(pos, 0)
             if v >= n:
                 v = v % n
+        elif cands is not None and self.policy.pct_depth:
+            v = self.policy.pct_pick(cands, pos, self.rng)
         else:
             p = self.policy.p.get(kind, 0.0)
             if p and self.rng.random() < p:
